@@ -181,9 +181,66 @@ def configs(ctx):
         # beside the convenient values: a step that is not a dyadic fraction, spans far from the origin of the time axis
         if m in ("RK4Solver", "RK45CKSolver", "ABAs5o6HSolver", "BackwardEuler", "RICH:RK4Solver:3"):
             for sp in ((1000.0, 1002.0), (-1000.0, -1002.0), (0.0, 2.0), (1.0, -1.0)):
-                for dn in (("float64",) if (ctx.quick or m.startswith("RICH")) else ("float64", "float32")):
+                for dn in (("float64",) if m.startswith("RICH") else ("float64", "float32")):
                     out.append(dict(method=m, span=list(sp), dt0=0.1, dtype=dn, tol=1e-6 if dn != "float32" else 1e-4, observe=True))
     return out
+
+
+def shape_case(case):
+    """dense output of states of every rank (scalar, (1,), matrix, rank 3).  y' = C (a constant array): every method integrates it exactly and a cubic
+    Hermite piece reproduces a linear function exactly, so sol(q) = y0 + C (q - t0) to rounding for every q in the range, for scalar and array queries;
+    a scalar query returns the shape of y0, an array of n queries returns (n, *shape)."""
+    de, I = lc._imports()
+    r = Res()
+    dtype = lc.DT[case["dtype"]]
+    shape = tuple(case["shape"])
+    n = int(np.prod(shape)) if shape else 1
+    C = (np.arange(1, n + 1, dtype=np.float64).reshape(shape) / 4.0 - 0.75).astype(dtype) if shape else dtype(0.5)
+    y0 = (np.arange(n, dtype=np.float64).reshape(shape) / 8.0 - 0.25).astype(dtype) if shape else dtype(-0.25)
+
+    def f(t, y, **kw):
+        return np.asarray(C, dtype=y.dtype) + 0 * y
+    t0, tf = case["span"]
+    name = case["method"]
+    a = de.OdeSystem(f, y0=y0, t=(dtype(t0), dtype(tf)), dt=dtype(case["dt0"]), rtol=dtype(1e-6), atol=dtype(1e-6), dense_output=True)
+    a.method = method_of(name)
+    r.n = 1
+    try:
+        a.integrate(dtype(t0 + 0.4375 * (tf - t0)), callback=driver.Budget(5000))
+        a.integrate(callback=driver.Budget(5000))
+    except de.exception_types.FailedIntegration:
+        r.add("raised")
+        return r
+    T = np.asarray(a.t)
+    qs = [T[k] + (T[k + 1] - T[k]) * dtype(fr) for k in range(len(T) - 1) for fr in (0.0, 0.3, 0.75)] + [T[-1]]
+    e = max(driver.eps_of(dtype), 2.0 ** -52)
+    rich = name.startswith("RICH")
+    tol = (64 * e * (len(T) + 4) * 8 + (1e-5 if (lc.family(name).startswith("implicit") or rich) else 0)) * (1.0 + max(abs(t0), abs(tf)) * (1.0 if abs(t0) > 100 else 0.0))
+
+    def want(q):
+        return np.asarray(y0, dtype=LD) + (LD(q) - LD(dtype(t0))) * np.asarray(C, dtype=LD)
+    key = "C06/shape/%s" % name
+    for q in qs:
+        got = np.asarray(a.sol(q))
+        r.n += 1
+        if got.shape != shape:
+            r.v(key + "/scalar-query-shape", "a scalar query returns a state of the shape of y0", dict(case, q=float(q)), observed=list(got.shape), expected=list(shape))
+            return r
+        if float(np.max(np.abs(np.asarray(got, dtype=LD) - want(q)))) > tol:
+            r.v(key + "/value", "every query inside the range is answered by the interpolant of the step that contains it (exact for y' = const)", dict(case, q=float(q)),
+                observed=dict(err=float(np.max(np.abs(np.asarray(got, dtype=LD) - want(q))))), expected="<= %.3g" % tol)
+            return r
+    Q = np.asarray(qs, dtype=dtype)
+    got = np.asarray(a.sol(Q))
+    if got.shape != (len(Q),) + shape:
+        r.v(key + "/array-query-shape", "an array of n queries returns n states", case, observed=list(got.shape), expected=[len(Q)] + list(shape))
+        return r
+    W = np.stack([want(q) for q in qs])
+    if float(np.max(np.abs(np.asarray(got, dtype=LD) - W))) > tol:
+        r.v(key + "/array-value", "array queries agree with scalar queries and the exact solution", case,
+            observed=dict(err=float(np.max(np.abs(np.asarray(got, dtype=LD) - W)))), expected="<= %.3g" % tol)
+    r.out(("shape", name, case["dtype"], len(shape), t0 < tf))
+    return r
 
 
 def run(ctx):
@@ -196,9 +253,26 @@ def run(ctx):
     ctx.assumptions += ["direction reversal is excluded (overlapping trajectories make 'the containing step' ambiguous)",
                         "rounding-level threshold 16*eps*scale; accuracy bound 4*(h^4/384*max|y''''| + 2(1+h)*E_grid) with E_grid the observed error at the grid points",
                         "Richardson wrappers: recorded states reproduced within 50*tol (their pieces come from sub-steps)"]
-    explore.bfs(ctx, configs(ctx), ops_fn, step, depth, section="bfs", horizon=300)
+    if not ctx.only or "bfs" in ctx.only:
+        explore.bfs(ctx, configs(ctx), ops_fn, step, depth, section="bfs", horizon=300)
+    if not ctx.only or "shape" in ctx.only:
+        from mc.core import grid
+        scases = []
+        for m in ["RK4Solver", "RK45CKSolver", "ABAs5o6HSolver", "ImplicitMidpoint", "RICH:RK4Solver:3"] + ([] if ctx.quick else ["DOPRI45", "RadauIIA5", "BackwardEuler", "RK8713MSolver"]):
+            for shape in ([], [1], [2, 3], [2, 1, 2]):
+                if shape == [] and m == "ABAs5o6HSolver":
+                    continue
+                for span in ([0.0, 2.0], [1.0, -1.0], [-1000.0, -1002.0]):
+                    for dn in ("float64", "float32") if ctx.quick else ("float64", "float32", "longdouble"):
+                        if m.startswith("RICH") and dn != "float64":
+                            continue
+                        for dt0 in (0.25, 0.1):
+                            scases.append(dict(method=m, shape=shape, span=span, dtype=dn, dt0=dt0))
+        grid.pmap(shape_case, scases, ctx, section="shape", horizon=300)
 
 
 def replay(case):
+    if "shape" in case:
+        return shape_case({k: v for k, v in case.items() if k != "q"})
     cfg = {k: v for k, v in case.items() if k not in ("hist", "step", "frac", "row", "_depth")}
     return step(cfg, tuple(tuple(o) for o in case["hist"]))
